@@ -121,7 +121,20 @@ func genPipeline(rt *rapid.T, avoid func(string) bool, maxReqs int, plain bool) 
 			}
 			continue
 		}
-		switch rapid.IntRange(0, 9).Draw(rt, "reqkind") {
+		switch rapid.IntRange(0, 10).Draw(rt, "reqkind") {
+		case 10:
+			if rapid.IntRange(0, 15).Draw(rt, "bigarg") != 0 {
+				c.Reqs = append(c.Reqs, binPtrs([][]byte{[]byte("ECHO"), []byte("small")}))
+				break
+			}
+			// an argument larger than the parser's initial buffers, with requests pipelined behind it
+			n := rapid.SampledFrom([]int{4096, 65534, 65535, 65536, 70000, 131073}).Draw(rt, "biglen")
+			big := make([]byte, n)
+			for j := range big {
+				big[j] = byte('a' + j%23)
+			}
+			c.Reqs = append(c.Reqs, binPtrs([][]byte{[]byte(g.Casing("ECHO")), big}))
+			labels["large-argument"] = true
 		case 0:
 			ill := illTable[rapid.IntRange(0, len(illTable)-1).Draw(rt, "ill")]
 			c.Reqs = append(c.Reqs, binPtrs(ill.Args))
